@@ -13,7 +13,16 @@ into the reference closure of one correlation rule and the rest (optionally spli
 references may have been loaded with its references resolved on its own (default of the loaders), the others are loaded
 unresolved; the parts are merged in any order, with the resolution either done by the merge or deferred to `Backend.convert`
 (`merge(..., resolve_references=False)`).  With a deferred resolution the order and the output flags are observed after the
-conversion, and a missing reference is reported when the references are resolved (by `convert`)."""
+conversion, and a missing reference is reported when the references are resolved (by `convert`).
+
+Round 5: load paths over rule sets of which some documents carry a *collected* error that has nothing to do with the references
+(an out-of-range status / level / date on any document of the set - plain, unrelated or correlation rule): `errmerge` = the
+permuted documents split into 1..3 parts, each loaded with `collect_errors=True, resolve_references=False` (what `load_ruleset` does
+per file), merged by `SigmaCollection.merge` (default: the merge resolves); `errfiles` = one file per document (file names in a
+seeded order, so the enumeration order differs from the document order), `load_ruleset(collect_errors=True)`.  The property is
+judged at load time as for every other path: the merged collection's rule order puts referenced rules first, the output flags are
+as stated, a missing reference is a Sigma error raised by the merge (no collecting parameter there) resp. a collected
+SigmaRuleNotFoundError of `load_ruleset`; the per-rule queries equal those of the other paths."""
 from __future__ import annotations
 import itertools, os, random, shutil, uuid
 from .common import Verdict, outcome_of_exception, WORK
@@ -27,7 +36,9 @@ RULE = ("rule sets = 1..4 plain rules (named and/or with id), 0..3 correlation r
         "; correlation rules with extended conditions (references from the condition text only); load path 'remerge' (the collection holding the correlation rules was merged once before with other rule objects)"
         "; load path 'collect' (error collection on, every correlation rule carries an unrelated collected error)"
         "; round 4: load path 'partmerge' (merged collections with different resolution histories: the reference closure of a correlation "
-        "rule loaded resolved on its own, the rest unresolved or resolved, merged in any order, resolution by the merge or deferred to convert)")
+        "rule loaded resolved on its own, the rest unresolved or resolved, merged in any order, resolution by the merge or deferred to convert)"
+        "; round 5: load paths 'errmerge' / 'errfiles' (parts resp. files loaded with error collection where a seeded non-empty subset of the documents - any kind - "
+        "carries an unrelated collected error (status/level/date out of range); merged by merge() resp. load_ruleset(collect_errors=True); judged at load time)")
 ASSUMPTIONS = [
     "rule names and ids are unique within a rule set (a later duplicate replaces an earlier one in the implementation's tables: modelled, not generated)",
     "the test backend's correlation templates are used to convert correlation rules",
@@ -113,7 +124,32 @@ def gen_cases(tier, seed, gen, effort):
         if corr:
             for p in rnd2.sample(perms, min(len(perms), 6 if not thorough else 12)):
                 cases.append(dict({"set": s, "docs": docs, "perm": list(p), "path": "partmerge"}, **gen_parts(rnd2, docs, list(p), rnd2.choice(corr))))
+        # round 5: parts / files loaded with error collection, some documents carry an unrelated collected error (own random stream)
+        rnd3 = random.Random(seed * 4099 + s * 17 + 5)
+        for p in rnd3.sample(perms, min(len(perms), 6 if not thorough else 12)):
+            cases.append(dict({"set": s, "docs": docs, "perm": list(p), "path": rnd3.choice(["errmerge", "errmerge", "errfiles"])}, **gen_err(rnd3, docs, list(p))))
     return cases, False
+
+
+BOGUS = [("status", "bogus"), ("level", "catastrophic"), ("date", "2024-02-30")]
+
+
+def gen_err(rnd, docs, perm):
+    """round 5: which documents (positions in the permuted list) carry an unrelated collected error, and how the list is cut in parts"""
+    n = len(perm)
+    k = rnd.randint(1, max(1, min(n, 2)))
+    bad = sorted(rnd.sample(range(n), k))
+    ncuts = rnd.randint(0, min(2, n - 1))
+    cuts = sorted(rnd.sample(range(1, n), ncuts)) if ncuts else []
+    return {"bad": [[i, rnd.randrange(len(BOGUS))] for i in bad], "cuts": cuts, "names": rnd.sample(range(n), n)}
+
+
+def with_errors(docs, case):
+    import copy
+    ds = copy.deepcopy(docs)
+    for i, b in case["bad"]:
+        ds[i][BOGUS[b][0]] = BOGUS[b][1]
+    return ds
 
 
 def closure(docs, start):
@@ -182,6 +218,25 @@ def load(docs, path, tag, case=None):
         colls = [SigmaCollection.from_dicts(copy.deepcopy([docs[i] for i in part]), resolve_references=res)
                  for part, res in zip(case["parts"], case["resolved"])]
         return SigmaCollection.merge(colls, resolve_references=case["final"])
+    if path == "errmerge":
+        ds = with_errors(docs, case)
+        bounds = [0] + case["cuts"] + [len(ds)]
+        colls = [SigmaCollection.from_dicts(ds[a:b], collect_errors=True, resolve_references=False) for a, b in zip(bounds, bounds[1:])]
+        return SigmaCollection.merge(colls)
+    if path == "errfiles":
+        ds = with_errors(docs, case)
+        d = os.path.join(WORK, "tmp_c09", tag)
+        shutil.rmtree(d, ignore_errors=True)
+        os.makedirs(d)
+        try:
+            files = []
+            for i, doc in enumerate(ds):
+                files.append(os.path.join(d, f"{case['names'][i]:02d}.yml"))
+                with open(files[-1], "w") as f:
+                    yaml.safe_dump(doc, f)
+            return SigmaCollection.load_ruleset(files if case["cuts"] else [d], collect_errors=True)
+        finally:
+            shutil.rmtree(d, ignore_errors=True)
     if path == "collect":
         # loaded with error collection; every correlation rule carries an unrelated, collected error (an invalid status): its
         # references are resolved all the same
@@ -223,7 +278,7 @@ def run_impl(case):
         coll = load(docs, case["path"], tag, case)
     except Exception as e:
         return {"outcome": outcome_of_exception(e), "stage": "load", "msg": str(e)[:120]}
-    if case["path"] == "collect":        # with error collection "reported at load time" means: among the collected errors
+    if case["path"] in ("collect", "errfiles"):        # with error collection "reported at load time" means: among the collected errors
         nf = [e for e in coll.errors if type(e).__name__ == "SigmaRuleNotFoundError"]
         if nf:
             return {"outcome": outcome_of_exception(nf[0]), "stage": "load", "msg": str(nf[0])[:120]}
@@ -265,6 +320,15 @@ _ref = {}
 
 
 def via(case):
+    if case["path"] in ("errmerge", "errfiles"):
+        docs = [case["docs"][i] for i in case["perm"]]
+        bad = ", ".join(f"{docs[i]['title']} has {BOGUS[b][0]}: {BOGUS[b][1]}" for i, b in case["bad"])
+        if case["path"] == "errmerge":
+            bounds = [0] + case["cuts"] + [len(docs)]
+            return (f"SigmaCollection.merge of the parts {[[d['title'] for d in docs[a:b]] for a, b in zip(bounds, bounds[1:])]}, each loaded with "
+                    f"from_dicts(collect_errors=True, resolve_references=False); collected unrelated errors: {bad}")
+        return (f"load_ruleset(collect_errors=True) of one file per document ({'files listed in document order' if case['cuts'] else 'directory'}, "
+                f"file names {[f'{k:02d}.yml' for k in case['names']]}); collected unrelated errors: {bad}")
     if case["path"] != "partmerge":
         return case["path"]
     docs = [case["docs"][i] for i in case["perm"]]
@@ -283,6 +347,9 @@ def judge(case, impl, reply):
     if case["path"] == "partmerge":
         key = key + (case["parts"], case["resolved"], case["final"])
         tags.append(f"partmerge:{'merge-resolves' if case['final'] else 'deferred'}:{sum(case['resolved'])}of{len(case['parts'])}-resolved")
+    if case["path"] in ("errmerge", "errfiles"):
+        key = key + (case["bad"], case["cuts"], case["names"] if case["path"] == "errfiles" else None)
+        tags.append(f"errdocs:{len(case['bad'])}:parts:{len(case['cuts']) + 1}")
     if reply["resolve"] == "missing":
         if io.startswith("sigma:") and impl.get("stage") == "load":
             return Verdict("ok", "", has_ref, key, tags=tuple(tags))
@@ -308,7 +375,9 @@ def judge(case, impl, reply):
     if impl["output"] != want_out:
         return Verdict("violation", f"emitted queries {impl['output']} are not the output-enabled rules' queries in rule order {want_out}", has_ref, key, tags=tuple(tags))
     if case["path"] in ("remerge", "partmerge"):
-        return Verdict("ok", "", has_ref, key, tags=tuple(tags + ["nodrift:merge-order"]))         # correlation rules first, then the plain rules
+        return Verdict("ok", "", has_ref, key, tags=tuple(tags + ["nodrift:merge-order"]))
+    if case["path"] == "errfiles":
+        return Verdict("ok", "", has_ref, key, tags=tuple(tags + ["nodrift:glob-order"]))         # correlation rules first, then the plain rules
     if case["path"] == "load_ruleset":
         return Verdict("ok", "", has_ref, key, tags=tuple(tags + ["nodrift:glob-order"]))   # file enumeration order is the OS's
     if impl["order"] != reply["modelOrder"] or [impl["flags"][d["title"]] for d in docs] != reply["modelFlags"]:
